@@ -215,6 +215,15 @@ def injector_cases():
     add('coalesce', 'SELECT coalesce(i, d) FROM #t', R)
     add('coalesce', 'SELECT coalesce(s, 1, s) FROM #t', R)
     add('coalesce', 'SELECT coalesce() FROM #t', R)
+    # uniform means the same type, not a sub-type nor "anything after an untyped value"
+    add('coalesce', 'SELECT coalesce(i, b) FROM #t', R)
+    add('coalesce', 'SELECT coalesce(1, TRUE) FROM #t', R)
+    add('coalesce', 'SELECT coalesce(b, i) FROM #t', R)
+    add('coalesce', 'SELECT coalesce(o, NULL) FROM #t', R)
+    add('coalesce', 'SELECT coalesce(o, s) FROM #t', R)
+    add('coalesce', 'SELECT coalesce(meta["note"], NULL) FROM #postings', R)
+    add('coalesce', 'SELECT coalesce(o, p) FROM #t', A)
+    add('coalesce', 'SELECT coalesce(NULL, NULL) FROM #t', A)
     add('coalesce', 'SELECT coalesce(s) FROM #t', A)
     # IN sub-query
     add('in-subquery', 'SELECT i IN (SELECT j FROM #t) FROM #t', A)
